@@ -505,7 +505,7 @@ func copyData(d map[string]any) map[string]any {
 
 // genTmplCase produces one soup case with its metamorphic oracle verdicts.
 func genTmplCase(r *Rng, out *outFiles) {
-	cfg := tmplCfg{ap: r.Pick([]string{":", ":", ":", "v-", "th:"}), tp: r.Pick([]string{"t:", "t:", "x-"}),
+	cfg := tmplCfg{ap: r.Pick([]string{":", ":", ":", "v-", "th:", "ui:", "wire:", "attr-"}), tp: r.Pick([]string{"t:", "t:", "x-", "tb:", "ck-"}),
 		global: map[string]any{"g1": "G", "s2": "global-s2", "num": int64(99)}}
 	g := &tmplGen{r: r, ap: cfg.ap, tp: cfg.tp}
 	ts := g.genSet()
